@@ -1,5 +1,7 @@
 package main
 
+import "strings"
+
 func init() { register("C18", runC18) }
 
 func runC18(cfg *runCfg) error {
@@ -23,16 +25,77 @@ func runC18(cfg *runCfg) error {
 	}
 	fams := []rsFamily{
 		{"corpus", rsCorpus()},
-		{"enum", enum},
+		{"enum", append(enum, rsC18Enum()...)},
 		{"random", rsRandomFamily(cfg.seed, n, [5]int{1, 3, 3, 2, 1}, true, false)},
 	}
 	rule := "the F9 history; random scenarios with ResponseTimeout configured in which acknowledgements (or requests) are silently dropped on any connection, for first transmissions, deferred requests and retransmissions, QoS1, both QoS2 phases, subscribe, unsubscribe, combined with closing faults; judged: never stuck, one RequestTimeoutError through OnError per silent drop, every request acknowledged at the end; non-trivial = distinct scenario in which a silent fault fired"
 	return rsRunProperty(cfg, "C18", "c18_ok", fams, rule, func(sc *rsScenario, o *rsObs) bool {
 		for _, w := range o.Wire {
-			if len(w.Desc) > 7 && (w.Desc[len(w.Desc)-7:] == "ilentRe" || w.Desc[len(w.Desc)-10:] == "FSilentAck" || w.Desc[len(w.Desc)-10:] == "FSilentReq") {
+			if strings.HasSuffix(w.Desc, "FSilentReq") || strings.HasSuffix(w.Desc, "FSilentAck") {
 				return true
 			}
 		}
 		return false
 	})
+}
+
+// rsC18Enum: every request kind whose acknowledgement (or the request itself) is silently dropped as a
+// first transmission, as a retransmission and as a deferred first transmission. The connection on
+// which the drop happens is NOT cut by the broker: only the client's reaction (close, redial) lets the
+// scenario continue, otherwise the driver records "stuck". Plus a few without ResponseTimeout (hang).
+func rsC18Enum() []*rsScenario {
+	acc := func(sp bool) rsAttempt { return rsAttempt{Kind: rsAccept, SP: sp} }
+	type reqk struct {
+		op  rsOp
+		idx int // packet of the request to silence (0 = first packet, 1 = PUBREL)
+	}
+	reqs := []reqk{
+		{rsP(1, 1), 0}, {rsP(1, 2), 0}, {rsP(1, 2), 1},
+		{rsS(1, rsSub{"a", 1}), 0}, {rsU(1, "a"), 0},
+	}
+	var out []*rsScenario
+	for _, rq := range reqs {
+		for _, sk := range []int{fSilentReq, fSilentAck} {
+			for _, mb := range []bool{false, true} {
+				// first transmission
+				out = append(out, &rsScenario{Note: "silent drop on a first transmission", Timeout: true, MethodB: mb, Phases: []rsPhase{
+					{Attempts: []rsAttempt{acc(false)}, Ops: []rsOp{rq.op}},
+					{Attempts: []rsAttempt{acc(true)}}},
+					Faults: []rsFault{{0, rq.idx, sk}}})
+				// retransmission: cut first, silence on the next connection
+				cut := fAckLost
+				ridx := 0
+				if rq.idx == 1 {
+					ridx = 0 // after PUBREC the retransmission starts with PUBREL
+				}
+				out = append(out, &rsScenario{Note: "silent drop on a retransmission", Timeout: true, MethodB: mb, Phases: []rsPhase{
+					{Attempts: []rsAttempt{acc(false)}, Ops: []rsOp{rq.op}, IdleCut: true},
+					{Attempts: []rsAttempt{acc(true)}},
+					{Attempts: []rsAttempt{acc(true)}}},
+					Faults: []rsFault{{0, rq.idx, cut}, {1, ridx, sk}}})
+				// deferred first transmission behind a failed request
+				op2 := rq.op
+				op2.UID = 2
+				if op2.Kind == 'p' {
+					op2.Payload = []byte{2}
+				} else if op2.Kind == 's' {
+					op2.Subs = append([]rsSub{{"#2", 0}}, op2.Subs[1:]...)
+				} else {
+					op2.Topics = append([]string{"#2"}, op2.Topics[1:]...)
+				}
+				out = append(out, &rsScenario{Note: "silent drop on a deferred first transmission", Timeout: true, MethodB: mb, Phases: []rsPhase{
+					{Attempts: []rsAttempt{acc(false)}, Ops: []rsOp{rsP(1, 1), op2}, IdleCut: true},
+					{Attempts: []rsAttempt{acc(true)}},
+					{Attempts: []rsAttempt{acc(true)}}},
+					Faults: []rsFault{{0, 0, fWriteFail}, {1, 1 + rq.idx, sk}}})
+			}
+		}
+	}
+	// no ResponseTimeout: the task goroutine waits for ever (model: w_hung)
+	for _, rq := range reqs[:3] {
+		out = append(out, &rsScenario{Note: "silent drop without ResponseTimeout: hangs", Timeout: false, Phases: []rsPhase{
+			{Attempts: []rsAttempt{acc(false)}, Ops: []rsOp{rq.op}}},
+			Faults: []rsFault{{0, rq.idx, fSilentAck}}})
+	}
+	return out
 }
